@@ -12,13 +12,10 @@ import json
 import os
 import re
 import subprocess
-import sys
 
+import c14_crc_extract
 import fv
 import gen
-
-sys.path.insert(0, os.path.dirname(os.path.dirname(os.path.abspath(__file__))))
-import c14_crc_extract  # noqa: E402
 
 MODULES = ['FeVerif.Props.C14']
 FNV_OFF, FNV_PRIME, M64 = 0xcbf29ce484222325, 0x100000001b3, (1 << 64) - 1
@@ -196,12 +193,20 @@ def run_harness(exe, lines):
         if done >= len(lines):
             if p.returncode != 0:
                 # every request was answered; the report is about process exit (e.g. a leak)
-                res[len(lines) - 1] = (res[len(lines) - 1][0], p.stderr[-3000:] or 'exit code %d' % p.returncode)
+                res[len(lines) - 1] = (res[len(lines) - 1][0], excerpt(p.stderr) or 'exit code %d' % p.returncode)
             break
         # the request at index `done` killed the process
-        res[done] = (None, p.stderr[-3000:] or 'exit code %d without a report' % p.returncode)
+        res[done] = (None, excerpt(p.stderr) or 'exit code %d without a report' % p.returncode)
         start = done + 1
     return res
+
+
+def excerpt(stderr):
+    """The head of the sanitizer report (kind of error, access, first stack), without the shadow-byte dump."""
+    i = stderr.find('==ERROR')
+    if i < 0:
+        i = max(0, stderr.find('runtime error') - 200)
+    return stderr[i:i + 3000]
 
 
 def sanitizer_kind(report):
@@ -278,7 +283,7 @@ class Judge:
             if rep is not None:
                 kind = sanitizer_kind(rep)
                 ctx.violation('C14/sanitizer-' + kind, 'sanitizer report while running `%s %d` (%d operations): %s'
-                              % (p['spec'], p['capacity'], len(p['ops']), ' | '.join(rep.strip().split('\n')[:3])[:400]),
+                              % (p['spec'], p['capacity'], len(p['ops']), ' | '.join(x.strip() for x in rep.strip().split('\n')[:4])[:500]),
                               dict(replay, sanitizer_report=rep))
                 if any(r['st'][-1] for r in parse_records(model[i])):
                     ctx.count('model_fault_flag_set_on_sanitizer_report')
